@@ -166,6 +166,10 @@ func dispatchPaths(p *Program, fi *FuncInfo, version int, subjSuffix string, tar
 					dp.rejected = true
 				}
 			}
+			// an error variable that holds a freshly made error on this path (single exit)
+			if id, ok := last.(*ast.Ident); ok && isErrorType(info.TypeOf(id)) && st.known[id.Name] && st.store[id.Name] != 0 {
+				dp.rejected = true
+			}
 		}
 		out = append(out, dp)
 	}
@@ -713,6 +717,12 @@ func c04r4(p *Program, r *Report) {
 		rt := ""
 		if st.retStmt != nil && len(st.retStmt.Results) == 1 {
 			rt = typeNameOf(info.TypeOf(st.retStmt.Results[0]))
+			// a result variable of the interface type: what it was given on this path
+			if id, isId := ast.Unparen(st.retStmt.Results[0]).(*ast.Ident); isId {
+				if t, has := st.valT[id.Name]; has {
+					rt = typeNameOf(t)
+				}
+			}
 		}
 		for _, name := range names {
 			if retTypes[name] == nil {
